@@ -209,7 +209,7 @@ fn build_wide(case: &DiCase) -> (Cfg, Vec<Call>) {
     let cfg = Cfg { n: 16, cap: 12 + (case.cap_sel as usize % 2) * 244 };
     let mut r = Runner::new(cfg);
     let mut calls = vec![];
-    let mut labels: Vec<Lab> = ["esta", "está", "ano", "año", "ах", "0E", "abcdefgh", "Foo", "FOO", "k1", "k2"].iter().map(|s| Lab::Str((*s).to_string())).collect();
+    let mut labels: Vec<Lab> = ["esta", "está", "ano", "año", "ах", "0E", "abcdefgh", "Foo", "FOO", "k1", "k2", "数据节点甲一", "数据节点甲二", "abcdefgX", "абвгдежз", "абвгдежи", "𝜑𝜓𝜔𝛼𝛽𝛾𝛿𝜀", "𝜑𝜓𝜔𝛼𝛽𝛾𝛿𝜁"].iter().map(|s| Lab::Str((*s).to_string())).collect();
     labels.extend((0..8).map(Lab::Alpha));
     labels.extend([Lab::Greek('a'), Lab::Greek('á'), Lab::Greek('ρ')]);
     for i in 0..total {
